@@ -369,3 +369,26 @@ pub(crate) fn verif_comment(src: &str) -> Option<(String, usize)> {
         .ok()
         .map(|(rest, c)| (c.to_string(), rest.len()))
 }
+
+/// Verification hooks (feature `verif-hooks`): the literal lexers of value notation. Each returns the
+/// lexed value and the length in bytes of the input left over.
+#[cfg(feature = "verif-hooks")]
+pub(crate) fn verif_hex_to_bools(c: char) -> [bool; 4] {
+    util::hex_to_bools(c)
+}
+
+#[cfg(feature = "verif-hooks")]
+pub(crate) fn verif_bit_string_value(src: &str) -> Option<(crate::intermediate::ASN1Value, usize)> {
+    bit_string::bit_string_value
+        .parse(crate::input::Input::from(src))
+        .ok()
+        .map(|(rest, v)| (v, rest.len()))
+}
+
+#[cfg(feature = "verif-hooks")]
+pub(crate) fn verif_cstring(src: &str) -> Option<(String, usize)> {
+    character_string::cstring
+        .parse(crate::input::Input::from(src))
+        .ok()
+        .map(|(rest, v)| (v, rest.len()))
+}
